@@ -45,6 +45,11 @@ def run_spec(spec, cap=20000, wall=30, fault=None, sim_class=None):
             Q.simulate_until_max_time(run['T'])
         elif run['method'] == 'customers':
             Q.simulate_until_max_customers(run['n'], method=run['cmethod'])
+            if run.get('again'):
+                # the count is reached: the same call again has nothing to do and must simply return
+                before = sum(1 for e in tr.events if e[0] == 'EVENT')
+                Q.simulate_until_max_customers(run['n'], method=run['cmethod'])
+                tr.again = (before, sum(1 for e in tr.events if e[0] == 'EVENT'))
         elif run['method'] == 'deadlock':
             Q.simulate_until_deadlock()
         else:
